@@ -145,6 +145,11 @@ def gen(t, tier):
     # the worker processes start together: each builds its cache object and tile manager when its first request runs (the
     # other threads of the process wait for it), not one after the other before the first request
     sc['lazy'] = bool(t.chance(0.3))
+    # linked single-colour tiles under a refresh rule: the file shared by all tiles of the colour was written hours ago (by a
+    # tile nobody asks for now), tiles older than an hour are to be refreshed
+    sc['aged_colour'] = sc['backend'].get('link') == 'symlink' and bool(t.chance(0.5))
+    # threads may also be switched between two statements of the tile manager / cache code (line events)
+    sc['linepreempt'] = t.pick([None] * 8 + [30, 200])
     if sc['backend']['type'] in SQL_TYPES and mode == 'kill':
         mode = sc['mode'] = 'plain'
     if (sc['backend']['type'] == 'compact' or sc['backend'].get('layout') in ('tc', 'tms')) and not sc['backend'].get('link'):
@@ -454,6 +459,12 @@ def _run_tm(sc, tape):
     viol = []
     killed = []
 
+    if sc.get('aged_colour'):
+        import mapproxy.util.times as times_mod
+        w.extra_patches.append((times_mod, 'datetime', C.datetime_module(w.clock)))     # relative rules read the simulated clock
+    if sc.get('linepreempt'):
+        sched.enable_line_preemption(['mapproxy/cache/tile.py', 'mapproxy/cache/base.py', 'mapproxy/cache/mbtiles.py',
+                                      'mapproxy/cache/geopackage.py', 'mapproxy/cache/file.py'], sc['linepreempt'])
     sql = sc['backend']['type'] in SQL_TYPES
     realdir = None
     simsql = None
@@ -488,10 +499,13 @@ def _run_tm(sc, tape):
         cache = make_cache()
         locker = TileLocker(LOCKDIR, 60, cache.lock_cache_id)
         src = U.SimSource(w, shared, supports_meta_tiles=not sc['bulk'], image_opts=image_opts)
-        return TileManager(grid, cache, [src], 'png', locker, image_opts=image_opts,
-                           meta_size=sc['meta_size'], meta_buffer=sc['meta_buffer'],
-                           minimize_meta_requests=sc['minimize'], concurrent_tile_creators=sc['creators'],
-                           bulk_meta_tiles=sc['bulk'])
+        tm_ = TileManager(grid, cache, [src], 'png', locker, image_opts=image_opts,
+                          meta_size=sc['meta_size'], meta_buffer=sc['meta_buffer'],
+                          minimize_meta_requests=sc['minimize'], concurrent_tile_creators=sc['creators'],
+                          bulk_meta_tiles=sc['bulk'])
+        if sc.get('aged_colour'):
+            tm_._refresh_before = {'hours': 1}
+        return tm_
 
     def client(cname, tm, reqs, dim=None):
         dims = {'time': dim} if dim is not None else None
@@ -566,6 +580,11 @@ def _run_tm(sc, tape):
                 for ci, reqs in enumerate(p['clients']):
                     sched.spawn(client('p%dc%d' % (pi, ci), tm, reqs, (p.get('dims') or [None] * (ci + 1))[ci]),
                                 'p%dc%d' % (pi, ci), proc)
+            if sc.get('aged_colour'):
+                w.clock.now -= 7200
+                make_cache().store_tile(C.make_tile((0, 31, 5), C.payload({'color': list(U.OCEAN)}, w=U.TS, h=U.TS)))
+                w.clock.now += 7200
+                faults['shared_colour_file_older_than_refresh_rule'] = 1
             if sc.get('stale_locks'):
                 names = set()
                 for p in sc['procs']:
@@ -600,6 +619,8 @@ def _run_tm(sc, tape):
     probes = dict(w.fs.probes)
     if simsql is not None:
         probes.update(simsql.probes)
+    if sched.line_yields:
+        probes['thread_switches_between_statements'] = sched.line_yields
     probes['upstream_calls'] = len(shared['log'])
     if overlap:
         probes['requests_overlapping_on_one_meta_tile'] = overlap
